@@ -301,6 +301,21 @@ def run(tier, seed, replay=None):
                     R.violation({'target': target, 'value': repr(val), 'rendered': t, 'what': 'non-string constant rendered with quotes/backslashes'})
             except Exception as e:
                 R.notes.setdefault('nonstring_errors', []).append(f'{target} {val!r}: {type(e).__name__}')
+    # ---------------- trees built in code with every option of the node: an INSERT whose cells are Constant nodes prints each cell as
+    # that constant prints on its own, whatever the flags of the statement (is_plain says the values are constants, nothing more)
+    from mindsdb_sql.parser.ast import Insert as Insert_, Identifier as Id_
+    cells = [1, -2.5, True, None, 'plain', "it's", 'two\nlines', 'tab\there', 'nb\u00a0sp\u200b', 'back\\slash', dt.date(2020, 1, 2), dt.datetime(2021, 3, 4, 5, 6, 7, 123456), '', '%s :x ?']
+    for flag in (False, True):
+        try:
+            ins = Insert_(table=Id_('t'), columns=[f'c{i}' for i in range(len(cells))], values=[[Constant(v) for v in cells]], is_plain=flag)
+            txt = ins.to_string()
+            want = ', '.join(Constant(v).to_string() for v in cells)
+            nonstr += 1
+            if f'({want})' not in txt:
+                R.violation({'target': 'to_string', 'position': 'insert', 'is_plain': flag, 'printed': txt, 'cells_printed_on_their_own': want,
+                             'what': 'an INSERT built from Constant cells does not print each cell as that constant prints on its own'})
+        except Exception as e:
+            R.notes.setdefault('nonstring_errors', []).append(f'Insert(is_plain={flag}): {type(e).__name__}: {str(e)[:80]}')
     # ---------------- several constants through ONE renderer call: each literal must be the one its own value gives
     # (values that compare equal in Python but are different SQL values: 1 / 1.0 / TRUE, 0 / 0.0 / -0.0 / FALSE, 2 / 2.0, '1')
     from mindsdb_sql.parser.ast import Insert, Identifier as Ident_
